@@ -56,8 +56,37 @@ theorem putMeta_other (s : MState) (k k' : Bytes) (m : Meta) (hne : k ≠ k') :
   get?_set_other k k' m hne s.index
 
 theorem delKey_other (s : MState) (k k' : Bytes) (hne : k ≠ k') :
-    getMeta (delKey s k) k' = getMeta s k' :=
-  get?_erase_other k k' hne s.index
+    getMeta (delKey s k) k' = getMeta s k' := by
+  unfold getMeta; rw [delKey_index]; exact get?_erase_other k k' hne s.index
+
+/-! `unpersist` (removal of a record's backend entry) changes `.disk` only -/
+
+theorem unpersist_pebble (s : MState) (k : Bytes) (m : Meta) : (unpersist s k m).pebble = s.pebble := by
+  unfold unpersist; split <;> rfl
+
+theorem unpersist_nextId (s : MState) (k : Bytes) (m : Meta) : (unpersist s k m).nextId = s.nextId := by
+  unfold unpersist; split <;> rfl
+
+theorem unpersist_hung (s : MState) (k : Bytes) (m : Meta) : (unpersist s k m).hung = s.hung := by
+  unfold unpersist; split <;> rfl
+
+theorem unpersist_held (s : MState) (k : Bytes) (m : Meta) : (unpersist s k m).held = s.held := by
+  unfold unpersist; split <;> rfl
+
+theorem delKey_pebble (s : MState) (k : Bytes) : (delKey s k).pebble = s.pebble := by
+  unfold delKey; split
+  · exact unpersist_pebble s k _
+  · rfl
+
+theorem delKey_nextId (s : MState) (k : Bytes) : (delKey s k).nextId = s.nextId := by
+  unfold delKey; split
+  · exact unpersist_nextId s k _
+  · rfl
+
+theorem delKey_hung (s : MState) (k : Bytes) : (delKey s k).hung = s.hung := by
+  unfold delKey; split
+  · exact unpersist_hung s k _
+  · rfl
 
 theorem lockW_getMeta (s : MState) (k k' : Bytes) : getMeta (lockW s k) k' = getMeta s k' := by
   unfold getMeta; rw [lockW_index]
@@ -186,13 +215,13 @@ def srcPhase (s1 : MState) (src : Bytes) (l' : LList) : MState :=
 theorem srcPhase_pebble (s1 : MState) (src : Bytes) (l' : LList) :
     (srcPhase s1 src l').pebble = s1.pebble := by
   unfold srcPhase; rw [signal_pebble]; split
-  · exact setVal_pebble s1 src _
+  · rw [delKey_pebble]; exact setVal_pebble s1 src _
   · exact setVal_pebble s1 src _
 
 theorem srcPhase_nextId (s1 : MState) (src : Bytes) (l' : LList) :
     (srcPhase s1 src l').nextId = s1.nextId := by
   unfold srcPhase; rw [signal_nextId]; split
-  · exact setVal_nextId s1 src _
+  · rw [delKey_nextId]; exact setVal_nextId s1 src _
   · exact setVal_nextId s1 src _
 
 theorem srcPhase_empty (s1 : MState) (src : Bytes) (l' : LList) (v0 : Val)
@@ -246,10 +275,33 @@ theorem newKeyWith_self (s : MState) (k : Bytes) (v : Val) :
 theorem newKeyWith_other (s : MState) (k k' : Bytes) (v : Val) (hne : k ≠ k') :
     getMeta (newKeyWith s k none v) k' = getMeta s k' := by
   unfold newKeyWith fresh
-  exact putMeta_other _ _ _ _ hne
+  simp only
+  rw [putMeta_other _ _ _ _ hne]
+  split
+  · unfold getMeta; rw [unpersist_index]
+  · rfl
 
 theorem newKeyWith_pebble (s : MState) (k : Bytes) (v : Val) :
-    (newKeyWith s k none v).pebble = s.pebble := rfl
+    (newKeyWith s k none v).pebble = s.pebble := by
+  unfold newKeyWith fresh
+  simp only
+  show (match (none : Option Meta), getMeta _ k with
+    | none, some dead => unpersist _ k dead
+    | _, _ => _).pebble = s.pebble
+  split
+  · rw [unpersist_pebble]
+  · rfl
+
+theorem newKeyWith_hung (s : MState) (k : Bytes) (v : Val) :
+    (newKeyWith s k none v).hung = s.hung := by
+  unfold newKeyWith fresh
+  simp only
+  show (match (none : Option Meta), getMeta _ k with
+    | none, some dead => unpersist _ k dead
+    | _, _ => _).hung = s.hung
+  split
+  · rw [unpersist_hung]
+  · rfl
 
 /-- `Api.rotate` once the source lookup and the pop have succeeded (the keys may coincide) -/
 theorem rotate_eq (left : Bool) (s s1 : MState) (now : Int) (src dst : Bytes) (l l' : LList)
@@ -481,7 +533,7 @@ theorem emit_hung (s : MState) (op : FeedOp) : (emit s op).hung = s.hung := by
 theorem srcPhase_hung (s1 : MState) (src : Bytes) (l' : LList) :
     (srcPhase s1 src l').hung = s1.hung := by
   unfold srcPhase; rw [signal_hung]; split
-  · exact setVal_hung s1 src _
+  · rw [delKey_hung]; exact setVal_hung s1 src _
   · exact setVal_hung s1 src _
 
 theorem srcPhase_held_nonempty (s1 : MState) (src : Bytes) (l' : LList) (he : DsList.llen l' ≠ 0) :
@@ -544,8 +596,7 @@ theorem api_rotate_same (left : Bool) (s : MState) (k : Bytes) (l : LList) (now 
       obtain ⟨m, e1, e2, _⟩ := newKeyWith_self (srcPhase s1 k l') k (.list DsList.empty)
       refine ⟨m, e1, e2, ?_⟩
       intro hh
-      show (srcPhase s1 k l').hung = s.hung
-      rw [srcPhase_hung]; exact (hlk hh).2
+      rw [newKeyWith_hung, srcPhase_hung]; exact (hlk hh).2
     · -- the record is still there and already write-locked by this call: reused
       have hne0 : DsList.llen l' ≠ 0 := fun z => hr (hz.mp z)
       obtain ⟨m4, g1, g2, g3, g4⟩ :=
